@@ -35,8 +35,35 @@ def pentry? (s : String) : Option (String × Int × Int) :=
   | [k, o, i] => do pure (k, ← o.toInt?, ← i.toInt?)
   | _ => none
 
+/-- entry token of `derivef`: id:S:p:idReq:key:f  (f = 1: the entry's own key derivation fails — a derived key size
+    beyond the HKDF output limit, a derived key type without key deriver) -/
+def dfentry? (s : String) : Option (DEntry × Bool) :=
+  match s.splitOn ":" with
+  | [id, st, p, r, k, f] => do
+    pure ({ id := ← id.toNat?, status := ← Driver.Mgr.status? st, isPrimary := ← Driver.bool? p,
+            idReq := ← Driver.optNat? r, key := ← k.toNat? }, ← Driver.bool? f)
+  | _ => none
+
+/-- `DeriveKeyset` over a deriver keyset some of whose entries cannot be derived: the call fails as a whole as soon as
+    one ENABLED entry fails (whatever its position or primary flag); entries that are not ENABLED are never derived, so
+    their failure is not seen. There is no partial result. -/
+def deriveKeysetF (es : List (DEntry × Bool)) : Option Handle :=
+  if es.any (fun ef => ef.2 && decide (ef.1.status = .enabled)) then none
+  else deriveKeyset (es.map (·.1))
+
 def handle (toks : List String) : Option String :=
   match toks with
+  | ["derivef", es] => do
+    let es ← if es == "-" then some [] else (es.splitOn ";").mapM dfentry?
+    match deriveKeysetF es with
+    | none => pure "err"
+    | some h => pure s!"ok {Driver.Mgr.showEntries h}"
+  | ["hkdfkey", h, prfKey, prfSalt, salt, need] => do
+    -- key material with the RFC 5869 output limit: no key beyond 255·hashLen bytes
+    let a ← hashAlg? h
+    match Hmac.hkdf (hmacM a) a.digestLen (← bytesOfTok? prfKey) (← bytesOfTok? prfSalt) (← bytesOfTok? salt) (← need.toNat?) with
+    | none => pure "err"
+    | some kb => pure (tokOfBytes kb)
   | ["accept", es] => do
     -- the ENABLED entries of a serialized deriver keyset: all acceptable → the derived keys' variants, else rejected
     let es ← (es.splitOn ";").mapM pentry?
